@@ -8,6 +8,10 @@
      T1=<status>        the extracted tree_cse model run with the library's opt_subs (section O)
                         against section C
      BS=<status>        the model's back-substitution of section C against the library's
+     WF=<0|1>           every input satisfies wf and tree_ok (hypotheses of C01/C02/C39 theorems)
+     XC=<0|1|?>         excl_complete: every Symbol leaf of the inputs is in the excluded_symbols the model
+                        computed (the per-instance hypothesis of C37_tree_cse_acyclic / _faithful_guarded)
+     GUARD=<0|1>        cse_guard: a FunctionSymbol named add/mul/pow or a Piecewise occurs in the inputs
    status: OK | DIFF <model result> | UNMODELLED | FUEL | NA
    Trees are compared after sorting Add dictionaries (unordered_map iteration order of a NEW Add
    is not modelled; that of the inputs is read from the dumps and drives the traversal). *)
@@ -171,9 +175,11 @@ let () =
             let o = match sec "O" fields with Some b -> b | None -> "MISSING" in
             let t0 = compare_model (tree_cse_lib [] es) t in
             let t1 = if is_err o || o = "MISSING" then "NA" else compare_model (tree_cse_lib (pairs_of o) es) c in
-            Printf.printf "CHKC=%s\tCHKT=%s\tT0=%s\tT1=%s\tBS=%s\tWF=%s\n"
+            Printf.printf "CHKC=%s\tCHKT=%s\tT0=%s\tT1=%s\tBS=%s\tWF=%s\tXC=%s\tGUARD=%s\n"
               (check_sect es c) (check_sect es t) t0 t1 (backsubst_status c)
               (if List.for_all (fun x -> wf x && tree_ok x) es then "1" else "0")
+              (match excl_complete_run es with Ok true -> "1" | Ok false -> "0" | _ -> "?")
+              (if cse_guard es then "1" else "0")
       with
       | Unsupported m -> print_endline ("UNSUPPORTED " ^ m)
       | Failure m -> print_endline ("FAIL " ^ m)
